@@ -48,7 +48,7 @@ func init() {
 			"fresh-process runs":                                  "real OS processes of the same harness binary (subcommand 'one')",
 		},
 		// (per-site counters "reach.site.<file>#<n>" are reported for whatever range-over-map sites the tree has)
-		ReachTargets: []string{"fault.map_order_non_identity", "fault.fresh_process_runs", "fault.gc_points_scheduled", "fault.heap_ballast_runs", "kind.churn", "kind.diag-heavy", "kind.frontend-errors", "kind.repl-session", "kind.example"},
+		ReachTargets: []string{"fault.map_order_non_identity", "fault.fresh_process_runs", "fault.gc_points_scheduled", "fault.heap_ballast_runs", "kind.churn", "kind.diag-heavy", "kind.frontend-errors", "kind.repl-session", "kind.example", "kind.grammar"},
 	})
 }
 
@@ -428,7 +428,11 @@ func c13Random(s Src, tier string) *Case {
 		n = 16
 	}
 	fresh := Chance(s, "fresh", 1, 40)
-	switch s.Int("family", 0, 16) {
+	switch s.Int("family", 0, 20) {
+	case 17, 18, 19, 20:
+		// programs straight from the grammar: no prediction, only agreement between schedules
+		prog := randomProgram(s)
+		return c13Case(s, "grammar", prog, "", &C13Expect{Source: "grammar"}, n, fresh)
 	case 15, 16:
 		// several front-end errors of different kinds on different lines: the first diagnostic must be stable
 		k := s.Int("nerr", 2, 4)
